@@ -18,7 +18,8 @@ RULE = ("per case one store (memory / sqlite file / peewee file), one bucket cre
         "id, then every caller-side object (events passed in, returned, handed out; metadata dicts; the create/update "
         "data dict) is mutated and everything is read again; then replace / replace_last / bulk upsert with the same "
         "mutate-afterwards probe; then one event that is not the newest is deleted and three more are inserted (single + "
-        "bulk) and ids / lookups re-checked; 'sweep' cases push thousands of instants through one bulk insert; non-trivial = "
+        "bulk) and ids / lookups re-checked; in half of the cases six equal-looking events (same instant and duration, data equal or "
+        "differing only as 1 / 1.0 / true) are stored, one of the later ones is deleted by id and every other event is re-read; 'sweep' cases push thousands of instants through one bulk insert; non-trivial = "
         "sub-millisecond duration part or non-UTC offset or nested/unicode data; signature = (backend, bulk?, decade, "
         "binary exponent of the start µs, duration class, data-shape class)")
 ASSUMPTIONS = ["the contract compared against is the millisecond floor of the given instant (Event's own normalisation)",
@@ -48,7 +49,7 @@ def gen_case(rng, ctx):
     return dict(kind="alias", backend=backend, bulk=rng.random() < 0.4, events=evs,
                 bucket_data=rand_data(rng, 3), update_data={"k": rand_json(rng, 2), "l": [1, {"m": 2}]},
                 repl=[rand_event_spec(rng, 3) for _ in range(3)], del_pick=rng.randrange(100),
-                repeat=rng.choice([0, 0, 2, 3, 5]))
+                repeat=rng.choice([0, 0, 2, 3, 5]), twins=rng.choice([None, None, "single", "bulk"]))
 
 
 def _want(spec):
@@ -239,6 +240,42 @@ def run_case(case, ctx):
                     viols.append(("repeated-object-copies-are-one-stored-event", f"backend={backend} after replacing one of "
                                   f"{case['repeat']} copies {len(left)} are left unchanged"))
             ctx.count("repeated_object_probes")
+        # ------------------------------------------------------------ equal-looking events are still separate events
+        if not viols and case.get("twins"):
+            base = case["repl"][1]
+            variants = [{"uid": 3000, "count": 1}, {"uid": 3000, "count": 1}, {"uid": 3000, "count": 1.0},
+                        {"uid": 3000, "count": True}, {"uid": 3000, "count": [0, False]}, {"uid": 3000, "count": [0.0, 0]}]
+            tspecs = [dict(base, data=v) for v in variants]
+            tids = []
+            if case["twins"] == "bulk":
+                b.insert([mk_event(s) for s in tspecs])
+                rows = sorted(t for t in dump_bucket(b) if __import__("json").loads(t[3]).get("uid") == 3000)
+                tids = [t[0] for t in rows]
+            else:
+                for s in tspecs:
+                    r = b.insert(mk_event(s))
+                    tids.append(r.id if r is not None else None)
+            stored = {t[0]: t for t in dump_bucket(b)}
+            if len(set(tids)) != len(tspecs) or any(i not in stored for i in tids):
+                viols.append(("equal-looking-events-lost-or-share-an-id", f"backend={backend} ids={tids}"))
+            else:
+                if case["twins"] != "bulk":
+                    for i, s in zip(tids, tspecs):
+                        _cmp("equal-looking", _want(s), stored[i], viols)
+                victim = tids[1 + case.get("del_pick", 0) % (len(tids) - 1)]        # one of the later-inserted ones
+                b.delete(victim)
+                left = {t[0]: t for t in dump_bucket(b)}
+                if victim in left or b.get_by_id(victim) is not None:
+                    viols.append(("deleted-event-still-returned", f"backend={backend} id={victim} among equal-looking events {tids}"))
+                for i, t in stored.items():
+                    if i == victim:
+                        continue
+                    e2 = b.get_by_id(i)
+                    if left.get(i) != t or e2 is None or obs(e2) != t:
+                        viols.append(("deleting-one-event-changed-another", f"backend={backend} deleted id={victim}; id={i} stored={t!r:.200} "
+                                      f"listing={left.get(i)!r:.200} lookup={None if e2 is None else obs(e2)!r:.200}"))
+                        break
+            ctx.count("equal_looking_event_probes")
         # ------------------------------------------------------------ ids stay unique across deletions
         if len(ids) >= 2 and not viols:
             victim = ids[case.get("del_pick", 0) % (len(ids) - 1)]      # never the highest id: that one is C02's case
